@@ -82,6 +82,26 @@ func ruleMarshalTables(c *Ctx) {
 				}
 				return true
 			})
+			// every value assigned to the result in a numeric arm must be produced by Sprintf over exact fields
+			ast.Inspect(cl, func(n ast.Node) bool {
+				as, ok := n.(*ast.AssignStmt)
+				if !ok || len(as.Lhs) != 1 || len(as.Rhs) != 1 {
+					return true
+				}
+				if t := info.TypeOf(as.Lhs[0]); t == nil || basicCategory(t) != "String" {
+					return true
+				}
+				rhs := unparen(as.Rhs[0])
+				if _, isLit := rhs.(*ast.BasicLit); isLit {
+					return true
+				}
+				if call, isCall := rhs.(*ast.CallExpr); isCall && isCallTo(info, call, "fmt.Sprintf") {
+					return true
+				}
+				arm.exact = false
+				arm.lossy = "result also produced by " + exprString(rhs)
+				return true
+			})
 			tags := map[string]bool{}
 			for _, f := range formats {
 				t := f
